@@ -22,14 +22,24 @@ import lang
 import pipeline
 
 
-def check_model(rep, drv, gen, rng, m, text, c):
+def check_model(rep, drv, gen, rng, m, text, c, forced_req=None):
     issue = family.mirror_issue(c, text)
     lay = c.impl_layout()
     mirror_ok = c.mirror is not None and c.mirror.get("status") == "ok"
     stiff = [s for s in lay["sorted_states"] if rng.random() < 0.5]
     mods = {}
+    # every other model is generated the way a coupled sub-model is: with a missing_values request (the values another model asks
+    # for) that names states / parameters / intermediates, read ones and unread ones alike - the request is served by the same
+    # generator object that then writes rhs and the schemes
+    req = None
+    if forced_req:
+        req = dict(forced_req)       # a replay: the recorded request
+    elif rng.random() < 0.5:
+        pool = lay["params"] + lay["sorted_states"] + lay["order"]
+        req = {nme: i for i, nme in enumerate(rng.sample(pool, k=min(len(pool), rng.choice([1, 2, 3, 4]))))}
+        rep.count("with_missing_values_request")
     for ru in (False, True):
-        code = family.try_generate(rep, c, text, schemes=impl.ALL_SCHEMES, remove_unused=ru, stiff_states=stiff)
+        code = family.try_generate(rep, c, text, schemes=impl.ALL_SCHEMES, remove_unused=ru, stiff_states=stiff, missing_values=req)
         if isinstance(code, Exception):
             rep.count("generation_raises:" + type(code).__name__)
             return
@@ -64,7 +74,7 @@ def check_model(rep, drv, gen, rng, m, text, c):
     pts = gen.inputs(m, 4)
     for pt in pts:
         isx, st, ps = pipeline.inputs_sx(lay, pt)
-        for fname in ["rhs"] + impl.ALL_SCHEMES:
+        for fname in ["rhs"] + impl.ALL_SCHEMES + (["missing_values"] if req else []):
             outs = {}
             for ru in (False, True):
                 fn = mods[ru][2][fname]
@@ -88,7 +98,7 @@ def check_model(rep, drv, gen, rng, m, text, c):
     family.settle(
         rep, issue,
         None if failing is None else (failing[0], {"kind": "direct", "text": text, "inputs": failing[1],
-                                                   "function": failing[2], "stiff_states": stiff}),
+                                                   "function": failing[2], "stiff_states": stiff, "missing_values": req}),
         None if not bad else ("a variant is rejected by the verified validator although sampled values agree: " + str(bad[:1]),
                               {"kind": "validator", "relation": "Valid.valid_rhs / valid_euler on both variants",
                                "text": text, "rejected": bad, "failing_input": None}))
@@ -154,7 +164,8 @@ def main(argv=None):
     drv = core.Driver()
     if a.replay:
         import json as _json
-        family.replay_text_case(rep, drv, _json.load(open(a.replay)), check_model)
+        data_ = _json.load(open(a.replay))
+        family.replay_text_case(rep, drv, data_, check_model, forced_req=data_.get("missing_values"))
         drv.close()
         return rep.finish(level="proof", rule="replay of " + a.replay, trusted_base=["see the full check"])
     rng = random.Random(a.seed)
